@@ -10,31 +10,37 @@ TB = ("Trusted: Coq 8.16.1 kernel + vm_compute (no native_compute); the hand-wri
       "harness (generators, implementation runner, value->Gallina printer). Print Assumptions output is recorded "
       "in the evidence file on every run. ")
 
+PARTIAL = ("Claimed level: model/implementation correspondence with property predicates evaluated inside Coq on the "
+           "implementation's observations (exploration strength for the universally quantified statement); the named "
+           "theorems are machine-checked. ")
+
+def C(category, technique, text, note=TB):
+    return dict(category=category, technique=technique, text=text, note=note)
+
+COQ = "machine-checked proof in Coq + model/implementation correspondence evaluated by vm_compute"
+CORR = "Coq model of the code + correspondence and property predicates evaluated by vm_compute (theorems pending for the full statement)"
+
 CHECKS = {
-    "C08": dict(
-        category="proof",
-        technique="machine-checked proof in Coq (model of transform/map.py) + model/implementation correspondence evaluated by vm_compute",
-        text="Theorems in coq/Properties/C08.v hold for every well-formed step map, position and side: monotonicity, "
-             "the documented rule (outside / inside / at the edges / insertions) in split-list form, deletion flags, "
-             "the recover round trip, inverted maps by normalisation. The model is function-for-function map.py and "
-             "is compared with the implementation on every observable (map, map_result, recover, touches, for_each, "
-             "Mapping construction/slice/append/invert/map) over exhaustive small maps (<=3 ranges, gaps and sizes "
-             "<=2, both orientations, all positions, both sides), random larger maps and operation-built mappings. "
-             "Mapping-level composition and the mirror round trip over strictly separated ranges are evaluated as "
-             "predicates on the implementation's output (exploration strength for those clauses). The mirror round "
-             "trip is refuted for maps with touching ranges (upstream semantics) and recorded as a known finding.",
-        note=TB + "Closed under the global context for every theorem."),
-    "C14": dict(
-        category="proof",
-        technique="machine-checked proof in Coq (model of model/mark.py + mark part of schema.py) + correspondence by vm_compute",
-        text="Theorems in coq/Properties/C14.v for every schema (arbitrary exclusion relation, ranks, attributes): "
-             "exact characterisation of add_to_set (blocked -> unchanged, else excluded marks removed, others kept in "
-             "order, new mark inserted at rank), preservation of rank order and duplicate-freeness, canonicity of "
-             "every set reachable by additions/removals, removal/membership as set operations, allowed_marks = "
-             "order-preserving filter. Correspondence: all 512 exclusion matrices over three mark types x add "
-             "sequences, random configurations with groups, '_', '' and attributes, compiled exclusion lists and "
-             "mark sets recomputed by the model from the spec.",
-        note=TB + "Closed under the global context for every theorem."),
+    "C01": C("exploration", CORR, "Step model (all eight step types: apply/get_map/invert/map/merge) compared with the implementation on adversarial primitive steps (wrap-like and lift-like replace-around steps with wrappers that cannot hold the gap, JSON round-tripped steps) and on every step the transform API emits; the predicate is the Coq validity checker `check` (= C07's `valid`, theorem check_iff) on the implementation's result, plus 'no internal error class'. Silent invalid results of replace-around steps with a closed wrapper are a recorded upstream finding."),
+    "C02": C("exploration", CORR, "Function-for-function Gallina model of fragment/node cut, resolve, slice and replace (replace_outer, two/three-way, add_range, close, prepare_slice) agrees with the implementation on every observable; the flat-token law (result tokens = old[:from] ++ inner tokens of slice ++ old[to:], size law, open depths of cuts, normalisation, validity, re-insertion gives back an equal document, failures only as ReplaceError / split surrogate pair) is evaluated in Coq on the implementation's output for all sampled (doc, range, slice) triples."),
+    "C03": C("exploration", CORR, "For every applied step (primitive and emitted by every high-level operation): size delta = sum(new-old) over the map's ranges and every old token outside the ranges is found at the mapped position (mark/attr steps: same token shape), evaluated in Coq over all positions. Replace-around steps with an empty gap are a recorded upstream finding."),
+    "C04": C("proof", COQ, "Theorems (coq/Properties/C04.v): the recorded steps/docs/maps of a transform stay aligned and replay exactly over ANY sequence of attempted steps, including refused ones (history_Inv, history_replay). Exact single-step undo, inverse maps and whole-history undo are evaluated in Coq on random histories of up to 12 transform operations and on primitive steps (exploration strength for those clauses)."),
+    "C05": C("exploration", CORR, "Gallina model of to_json/from_json for marks, nodes, fragments, slices and all eight step types agrees with the implementation after a real json.dumps/json.loads; round-trip equality, identical re-serialisation, identical effect and map of decoded steps, registry by stepType, no aliasing of live attribute objects (monitor) are evaluated per case."),
+    "C06": C("proof", COQ, "Brzozowski-derivative semantics of content expressions and a bisimulation certificate checker proved sound for all expressions and automata (check_bisim_sound, check_bisim_prefix, deriv_ok). Every quick run evaluates the checker in Coq against the automaton the implementation compiled for every expression of syntax-tree size <= 3 over {a, b, group}, smaller sweeps over non-generatable and inline alphabets, and random nested expressions: for each of them the statement holds for ALL child sequences. Malformed expressions and the dead-end rule are compared with an oracle computed in Coq."),
+    "C07": C("proof", COQ, "Theorems (coq/Properties/C07.v) for all schemas and nodes: valid_content, check, can_replace, can_replace_with, can_append and content_match_at answer exactly the schema's definition of validity (accepted child-type sequence + allowed marks). Correspondence on all index ranges of generated nodes, replacement sub-ranges, corrupted trees."),
+    "C08": C("proof", COQ, "Theorems (coq/Properties/C08.v) for every well-formed step map, position and side: monotonicity, the documented rule (outside / inside / edges / insertions), deletion flags, recover round trip; inverted maps by normalisation. Correspondence: exhaustive maps (<=3 ranges, gaps and sizes <=2, both orientations, all positions, both sides), random larger maps, operation-built mappings; mapping composition and mirror round trips evaluated as predicates. Mirror round trip over touching ranges is a recorded upstream finding."),
+    "C09": C("exploration", CORR, "Model of resolve and every accessor (node/index/start/end/before/after/index_after/pos_at_index/offsets/node_before/after/marks/marks_across/shared_depth/block_range), node_at, child_after/before, nodes_between, range_has_mark, text_between agrees with the implementation at every position of generated documents (astral text, non-inclusive marks); the token-picture specification (Spec/TokenPos.v) is evaluated on the implementation's answers."),
+    "C10": C("exploration", "frame monitor on the implementation driven by model-replayed histories; accumulator theorem in Coq", "Theorem accumulators_append_only (transform bookkeeping only appends). In-place mutation/aliasing of Python objects cannot be exhibited by a value-level model: every object handed out during random histories (documents, fragments, slices, marks, mark lists, steps, maps, the shared empties) is snapshotted and re-serialised after every operation; histories also replay through the model."),
+    "C11": C("exploration", CORR, "Seven replace-family operations on the bundled schema family: never raise, emitted steps replay through the model, result valid (Coq check), content before/after preserved in order, inserted content an in-order subsequence of the slice's (marks only dropped, only required block fillers added), deletions add no text. Silent no-op when the fitter cannot close is a recorded upstream finding."),
+    "C12": C("exploration", CORR, "Seven structure helpers: never crash, in-range results, approval implies the edit succeeds, is valid (Coq check) and preserves the leaf sequence for split/join/lift/wrap; emitted steps replay through the model. find_wrapping ignoring marks on block nodes is a recorded upstream finding."),
+    "C13": C("exploration", CORR, "Pointwise token specification of add/remove mark steps and of whole add_mark/remove_mark operations (by mark, by type, all), node-mark, attribute and doc-attribute steps, evaluated in Coq on the implementation's result; steps replay through the model."),
+    "C14": C("proof", COQ, "Theorems (coq/Properties/C14.v) for every schema: exact characterisation of add_to_set, rank order and duplicate-freeness preserved, every reachable set canonical, removal/membership as set operations, allowed_marks = order-preserving filter. Correspondence: all 512 exclusion matrices over three types, random configurations with groups (including names that are substrings of each other), '_', '' and attributes; compiled exclusion lists and mark sets recomputed by the model."),
+    "C15": C("exploration", CORR, "Model of fill_before (DFS with visited list), create_and_fill and find_wrapping (BFS) agrees with the implementation (exact answers) on every state of the bundled family and of generated well-founded schemas; soundness and completeness/shortest-chain are checked against independent closures computed in Coq. Unbounded recursion on first-choice cycles is a recorded upstream finding."),
+    "C16": C("exploration", CORR, "Mergeable pairs (replace steps closed on the seam in both directions, typing sequences, mark steps) on the bundled family: merge result agrees with the model, merged step succeeds whenever the pair did, yields an equal document and the same size change."),
+    "C17": C("exploration", CORR, "Pairs of single steps from every high-level operation with strictly separated touched ranges: rebased steps exist, both orders succeed and give equal documents; Step.map agrees with the model. Joining replace vs mark step is a recorded upstream finding (witness in the corpus)."),
+    "C18": C("exploration", CORR, "Edits with both ends inside an isolating node (isolating and table-like variants): tokens up to and including the node's open token and from its close token on are unchanged, for the replace family, lift and split; steps replay through the model. The fitter placing unfittable content after the isolating node is a recorded upstream finding."),
+    "C19": C("exploration", "verified validity oracle (Coq) on parser output + round trips compared in Coq + Coq model of matches_context", "lxml and the parser's state machine are not modelled. Every generated HTML fragment must parse (no exception, no hang) into a document the Coq validity checker accepts; serialise-then-parse must give an equal document for whitespace-normal documents (spaces between differently marked words, code blocks, escaping of text/attributes checked through lxml); matches_context is modelled in Coq and compared on random open-node stacks and context expressions."),
+    "C20": C("proof", COQ, "Theorems (coq/Properties/C20.v): the identity fast path never changes the answer (any sound sharing oracle), nothing is reported exactly when the fragments are equal, a fragment never differs from itself; both scans are structurally recursive (total). That the reported positions equal the common token prefix/suffix (UTF-16 units) is evaluated in Coq on edit pairs with shared nodes, independent copies and astral text; every call runs under an alarm."),
 }
 
 NOT_YET = "check under construction in this round (model/correspondence not registered yet)"
